@@ -22,9 +22,18 @@ M = {
         ("check_inst returns after the first type parameter", I + "checker/expr_checker.py",
          "        # For everything else, we fall back to the default checking implementation\n        param.check_arg(arg, node)",
          "            return\n        # For everything else, we fall back to the default checking implementation\n        param.check_arg(arg, node)", "R-C12.6"),
-        ("check_inst only checks type parameters", I + "checker/expr_checker.py",
+        # (re-labelled: this was listed as breaking, but the `continue` is only reached for a type parameter with a type argument that
+        #  passed both bound tests, and TypeParam.check_arg tests exactly those two bounds again -- behaviour is unchanged, and the
+        #  interpreted rule is right to stay silent; the loop-shape rule used to flag it)
+        ("benign: check_inst skips the redundant check_arg for type arguments that passed the fast path", I + "checker/expr_checker.py",
          "        # For everything else, we fall back to the default checking implementation\n        param.check_arg(arg, node)",
-         "            continue\n        # For everything else, we fall back to the default checking implementation\n        param.check_arg(arg, node)", "R-C12.6"),
+         "            continue\n        # For everything else, we fall back to the default checking implementation\n        param.check_arg(arg, node)", None),
+        ("check_inst returns after the first parameter", I + "checker/expr_checker.py",
+         "        # For everything else, we fall back to the default checking implementation\n        param.check_arg(arg, node)",
+         "        # For everything else, we fall back to the default checking implementation\n        param.check_arg(arg, node)\n        return", "R-C12.6"),
+        ("check_inst: droppable bound tested with the copyable capability", I + "checker/expr_checker.py",
+         "            if param.must_be_droppable and not arg.ty.droppable:\n                raise GuppyTypeError(\n                    NonLinearInstantiateError(node, param, func_ty, arg.ty)",
+         "            if param.must_be_droppable and not arg.ty.copyable:\n                raise GuppyTypeError(\n                    NonLinearInstantiateError(node, param, func_ty, arg.ty)", "R-C12.6"),
         ("benign: check_inst binds the instantiated parameter to a new name", I + "checker/expr_checker.py",
          "        # For everything else, we fall back to the default checking implementation\n        param.check_arg(arg, node)",
          "        # For everything else, we fall back to the default checking implementation\n        p = param\n        p.check_arg(arg, node)", None),
